@@ -35,7 +35,24 @@ impl Processor {
     }
 
     pub fn load(&self, main: &Locator) -> anyhow::Result<ModuleSet> {
-        let mods = oal_compiler::module::load(&mut self.loader(), main)?;
+        let mods = oal_compiler::module::load(&mut self.loader(), main).map_err(|err| {
+            // Errors raised by the loading process itself (e.g. an import that cannot be loaded,
+            // a cycle in module dependencies) are reported in the sources like all others.
+            match err.downcast::<oal_compiler::errors::Error>() {
+                Ok(err) => {
+                    let span = match err.span() {
+                        Some(s) => s.clone(),
+                        None => Span::new(main.clone(), 0..0),
+                    };
+                    let loc = span.locator().clone();
+                    match self.report(span, &err) {
+                        Ok(()) => anyhow!("loading failed: {loc}"),
+                        Err(err) => err,
+                    }
+                }
+                Err(err) => err,
+            }
+        })?;
         Ok(mods)
     }
 
